@@ -659,6 +659,14 @@ def run_probes(ctx, probes, cfgs, tag, with_model=True):
                            "how": "compile the run-time side with vyper.compiler.compile_code under the named configuration, deploy, call with args"},
                           key=f"c17:out-of-range-result:{p.form}")
             continue
+        if rv and "revert" in rt_vals.values():
+            # the same run-time function on the same operands reverts under one configuration and returns under another
+            n_fail += 1
+            ctx.violation("failing-input", f"{p.form}: run-time side reverts under some configurations and returns a value under others",
+                          {"probe": p.ident(), "runtime_side": {k: str(v) for k, v in rt_vals.items()},
+                           "how": "compile the run-time side under the named configurations, deploy, call with args"},
+                          key=f"c17:runtime-configs-disagree:{p.form}:{p.ret}")
+            continue
         if "revert" in lit_vals.values():
             lv.add("revert-of-folded-constant")
         if len(lv | rv) > 1 or (lv and len(lv) > 1):
